@@ -114,6 +114,13 @@ def gen_cases(family, tier):
             r = core.rng("bind", i)
             items = sweep[i * per:(i + 1) * per]
             spec = F.fam_bind(r, i, items)
+            for retry in range(8):
+                # a runtime-array struct needs encase, encase has no f64: such modules can not
+                # compile whatever the tool does (C01 records that); keep them out of this family
+                if not (has_f64_host(spec) and has_rts(spec)):
+                    break
+                r = core.rng("bind", i, "retry", retry)
+                spec = F.fam_bind(r, i, items)
             c = Case("b%d" % i, family, spec)
             opt = {"bv": r.random() < 0.5, "bh": False, "en": True, "se": r.random() < 0.3,
                    "mv": r.choice(["rust", "glam", "nalgebra"])}
@@ -377,18 +384,19 @@ def probe_c10(case, cfg):
             except Exception:
                 continue
             n += 1
-            comps = json.dumps([[o, k, v] for (o, k, v) in vb.components])
+            # the checker recomputes the expected (offset, kind, value) list with the same
+            # ValueBuilder: nothing big goes through the json! macro
             L.append("    { let v = %s; let mut b = encase::StorageBuffer::new(Vec::<u8>::new()); "
                      "let r = b.write(&v); "
                      'emit("bytes", j!({"struct": %s, "space": "storage", "n_runtime": %d, '
-                     '"ok": r.is_ok(), "hex": wgpu::verif::hex(b.as_ref()), "components": %s})); }'
-                     % (expr, rs_str(s), ln, comps))
+                     '"ok": r.is_ok(), "hex": wgpu::verif::hex(b.as_ref())})); }'
+                     % (expr, rs_str(s), ln))
             if s in uniform_roots and not rts:
                 L.append("    { let v = %s; let mut b = encase::UniformBuffer::new(Vec::<u8>::new());"
                          " let r = b.write(&v); "
                          'emit("bytes", j!({"struct": %s, "space": "uniform", "n_runtime": %d, '
-                         '"ok": r.is_ok(), "hex": wgpu::verif::hex(b.as_ref()), "components": %s})); }'
-                         % (expr, rs_str(s), ln, comps))
+                         '"ok": r.is_ok(), "hex": wgpu::verif::hex(b.as_ref())})); }'
+                         % (expr, rs_str(s), ln))
     L.append("}")
     return "\n".join(L) + "\n" if n else None
 
@@ -737,6 +745,9 @@ def cargo_fixpoint(root, shard_mods, casedir, target_dir, mode="build", max_roun
             if d.get("message", "").startswith("aborting due to") or \
                     d.get("message", "").startswith("could not compile"):
                 continue
+            if "recursion limit reached" in (d.get("message") or ""):
+                raise core.Inconclusive("harness fault: macro recursion limit in generated probe "
+                                        "code: %s" % (d.get("rendered") or "")[:400])
             rel, line_no = attribute(d, casedir, known_abs)
             rec = {"code": (d.get("code") or {}).get("code"), "message": d.get("message"),
                    "line": line_no, "round": rnd,
